@@ -14,5 +14,7 @@ RULES = {
     "path4": _HEAD + _HOSTSN + b"(p:[^\\|]+\\|){4})",
 }
 
-DEFAULT_RULE_NAMES = ["domain", "subdomain", "path1", "path2"]
+RULES["none"] = b""          # a legal configuration: an empty default rule never proposes anything
+
+DEFAULT_RULE_NAMES = ["domain", "subdomain", "path1", "path2", "domain", "subdomain", "none"]
 ANCHORED_RULE_NAMES = ["domain", "subdomain", "path1", "path2", "path3", "path4"]
